@@ -235,6 +235,26 @@ func runAPI(op string, args []string) string {
 				return fmtErr(err, p)
 			}
 			return okp(renderVal(v), p, err)
+		case "StdTree":
+			v, _, err := rjson.ReadValue(data)
+			if err != nil {
+				return "err"
+			}
+			collide := false
+			sanitizeTree(v, rjson.StdLibCompatibleString, &collide)
+			if collide {
+				return "collide"
+			}
+			var out interface{} = v
+			switch x := v.(type) {
+			case []interface{}:
+				out = rjson.StdLibCompatibleSlice(x)
+			case map[string]interface{}:
+				out = rjson.StdLibCompatibleMap(x)
+			case string:
+				out = rjson.StdLibCompatibleString(x)
+			}
+			return "ok " + renderVal(out)
 		case "getu4":
 			return fmt.Sprint(int(rjson.VerifGetu4(data)))
 		case "unescapeUnicodeChar":
